@@ -131,3 +131,35 @@ Lemma src_fields_visibility_agrees : forall (cores : list (layer B)) f,
   wf cores -> assoc f (gen_fields_visibility cores) = gen_field_visibility_idx cores f (length cores).
 Proof. intros. rewrite fields_visibility_eq, vis_eq. now apply fields_visibility_agrees. Qed.
 End S.
+
+(** non-vacuity: a well-formed four-layer list (+: chain over a removal, hidden/unhide shadowing) on which
+    the translated functions compute non-trivial answers *)
+Example ex_cores_wf : wf ex_cores.
+Proof. apply wfb_wf. vm_compute. reflexivity. Qed.
+Example ex_get : gen_get_idx_walk ex_ev ex_add ex_cores 0 4 = Ok (Some 111%Z)
+              /\ gen_get_idx_walk ex_ev ex_add ex_cores 1 4 = Ok (Some 7%Z)
+              /\ gen_get_idx_walk ex_ev ex_add ex_cores 1 3 = Ok None
+              /\ gen_get_idx_walk ex_ev ex_add ex_cores 1 2 = Ok (Some 5%Z)
+              /\ gen_get_idx_walk ex_ev ex_add ex_cores 2 4 = Ok None.
+Proof. vm_compute. repeat split. Qed.
+Example ex_get_order :    (* + is not commutative on lists: the fold order is observable *)
+  gen_get_idx_walk (fun _ (z : Z) => Ok [z]) (fun a b => Ok (a ++ b)) ex_cores 0 4 = Ok (Some [1; 10; 100]%Z).
+Proof. vm_compute. reflexivity. Qed.
+Example ex_has : gen_has_field_include_hidden_idx ex_cores 1 3 = false
+              /\ gen_has_field_include_hidden_idx ex_cores 1 2 = true
+              /\ gen_has_field_include_hidden_idx ex_cores 1 4 = true.
+Proof. vm_compute. repeat split. Qed.
+Example ex_vis : gen_field_visibility_idx ex_cores 0 4 = Some VisHidden
+              /\ gen_field_visibility_idx ex_cores 0 3 = Some VisNormal
+              /\ gen_field_visibility_idx ex_cores 1 4 = Some VisUnhide
+              /\ gen_field_visibility_idx ex_cores 1 3 = None
+              /\ gen_field_visibility_idx ex_cores 1 2 = Some VisHidden.
+Proof. vm_compute. repeat split. Qed.
+Example ex_fields : gen_fields_ex ex_cores false = [1] /\ gen_fields_ex ex_cores true = [0; 1]
+                 /\ gen_fields_ex (firstn 3 ex_cores) true = [0].
+Proof. vm_compute. repeat split. Qed.
+Example ex_ctor : gen_remove_key (gen_extend_from [LObj [(0, Member false VisNormal 1%Z)] [] []]
+                                                  [LObj [(1, Member false VisNormal 2%Z)] [] []]) 1
+                  = [LObj [(0, Member false VisNormal 1%Z)] [] []; LObj [(1, Member false VisNormal 2%Z)] [] [];
+                     LOmit [1] 2].
+Proof. reflexivity. Qed.
